@@ -528,7 +528,9 @@ func c13FilterUses(c *Ctx, r *Report) {
 			}
 		}
 	})
-	allowed := map[string]bool{"(*lint.registryImpl).lintNamesToMap": true, "errors.New": true, "fmt.Errorf": true, "<dynamic call>": true}
+	allowed := map[string]bool{"(*lint.registryImpl).lintNamesToMap": true, "errors.New": true, "fmt.Errorf": true, "<dynamic call>": true,
+		// re-registration errors, whether they come back through the per-kind closure or directly
+		"(*lint.registryImpl).registerCertificateLint": true, "(*lint.registryImpl).registerRevocationListLint": true, "(*lint.registryImpl).registerOcspResponseLint": true}
 	nOrig := 0
 	for o, pos := range origins {
 		nOrig++
